@@ -3,6 +3,16 @@
 from . import lib
 
 COMPARE = ['err', 'vis', 'calls', 'pkgs', 'st']
+FINGERPRINT = ['extractor/filesystem/filesystem.go:Run,runOnScanRoot,InitWalkContext,RunFS,walkIndividualPaths,walkContext.handleFile,walkContext.postHandleFile,'
+               'lazyFileAPI.Stat,walkContext.shouldSkipDir,walkContext.runExtractor,walkContext.UpdateScanRoot,fileSize,addErrToMap,errToExtractorStatus',
+               'extractor/filesystem/internal/walkdir_iterate.go:walkDirUnsorted,WalkDirUnsorted,readDir,dirIterator.next',
+               'extractor/filesystem/internal/gitignore.go:GitignoreMatch,ParseDirForGitignore,ParseParentGitignores',
+               'scalibr.go:Scanner.Scan,newScanResult,sortResults,CmpPackages,cmpStatus', 'plugin/plugin.go:StatusFromErr']
+
+
+def scale(ctx):
+    """stream size multiplier: 4x when a mirrored function changed since its fingerprint was recorded"""
+    return 4 if ctx.fingerprints(FINGERPRINT) else 1
 TRUSTED = ['Lean 4.33.0 kernel', 'axioms: propext, Quot.sound, Classical.choice at most (see theorems.*.axioms)',
            'the go-git gitignore matcher obeys the domain rule (hypothesis GiOK = DomainLaw; proved for the Lean matcher of the generated pattern sub-language, '
            'which the correspondence stream validates against go-git on every scan with UseGitignore)',
